@@ -59,6 +59,10 @@ func (msg *Encrypted) Serialize(client MessageInformator, requireToAck bool) ([]
 func DeserializeEncrypted(data, authKey []byte) (*Encrypted, error) {
 	msg := new(Encrypted)
 
+	if len(data) < tl.LongLen+tl.Int128Len {
+		return nil, fmt.Errorf("packet is too small: have %v bytes, need at least %v", len(data), tl.LongLen+tl.Int128Len)
+	}
+
 	buf := bytes.NewBuffer(data)
 	d, err := tl.NewDecoder(buf)
 	if err != nil {
